@@ -19,5 +19,6 @@ for c in $CHECKS; do
   VERIF_REPO="$WT" /verif/run $c quick > "$WT/check.$c.out" 2>&1; rc=$?
   echo "CHECK $c quick: exit $rc"
   grep -a -A1 "^VIOLATION" "$WT/check.$c.out" | grep "^\s" | head -4 | cut -c1-260
+  grep -a -A3 "engine error" "$WT/check.$c.out" | cut -c1-300 | head -8
   tail -1 "$WT/check.$c.out" | cut -c1-200
 done
